@@ -49,6 +49,10 @@ class InputProp:
     chunk = 2000
     mem_gb = 4
     nsamples = 6
+    # wall-clock budgets (about 10x the normal run time): a tree on which the check crawls gets a verdict from
+    # what was explored so far (violations found -> exit 1) or none at all (exit 2), never an endless run
+    budget_s = {"quick": 420.0, "thorough": 5400.0}
+    failfast_s = {"quick": 90.0, "thorough": 900.0}  # with violations in hand, do not crawl on
 
     def prepare(self, tier):
         raise NotImplementedError
@@ -74,18 +78,29 @@ class InputProp:
         skip = set(payload.get("skip", ()))
         space = self.space
         out = {"n": 0, "steps": 0, "keys": set(), "sig_counts": Counter(), "viol": [], "counters": Counter(),
-               "samples": []}
+               "samples": [], "collect": []}
+        t_chunk = time.time()
         for idx in range(lo, hi):
             if idx in skip:
                 continue
+            if idx > lo and time.time() - t_chunk > 40.0:
+                out["resume"] = idx  # hand back what is done; the parent re-queues the rest
+                break
             case = space[idx]
             ctx.begin(idx, self.soft_timeout)
             try:
                 r = self.run_case(case)
             except poolmod.CaseTimeout:
                 r = {"key": "hang", "viol": self.timeout_violation(case)}
+                out["hangs"] = out.get("hangs", 0) + 1
             finally:
                 ctx.end()
+            if out.get("hangs", 0) >= 3:
+                out["aborted_at"] = idx  # a chunk in which everything hangs is not worth finishing
+                out["n"] += 1
+                for v in r.get("viol") or ():
+                    out["sig_counts"][v["sig"]] += 1
+                break
             out["n"] += 1
             out["steps"] += r.get("steps", 1)
             if len(out["keys"]) < KEYCAP:
@@ -97,6 +112,8 @@ class InputProp:
             c = r.get("counters")
             if c:
                 out["counters"].update(c)
+            if r.get("collect"):
+                out["collect"].extend(r["collect"])
             for v in r.get("viol") or ():
                 out["sig_counts"][v["sig"]] += 1
                 if out["sig_counts"][v["sig"]] <= 2:
@@ -129,7 +146,7 @@ class InputProp:
         p = poolmod.WorkerPool(self._handle, soft_timeout=self.soft_timeout, hard_timeout=self.hard_timeout,
                                mem_gb=self.mem_gb, init=self.worker_init)
         agg = {"n": 0, "steps": 0, "keys": set(), "sig_counts": Counter(), "viol": [], "counters": Counter(),
-               "samples": []}
+               "samples": [], "collect": []}
         verdict = report.Verdict(self.id, gate=gate)
 
         def on_result(i, res):
@@ -141,12 +158,41 @@ class InputProp:
             agg["counters"].update(res["counters"])
             agg["viol"].extend(res["viol"])
             agg["samples"].extend(res["samples"])
+            agg["collect"].extend(res.get("collect", ()))
 
+        nh = [0]
+
+        again = []
+
+        def count_hangs(i, res):
+            on_result(i, res)
+            nh[0] += res.get("hangs", 0)
+            if res.get("resume") is not None:
+                again.append({"lo": res["resume"], "hi": cur[i]["hi"], "skip": cur[i].get("skip", [])})
+
+        results = []
         try:
-            results = p.map(chunks, on_result=on_result)
+            cur = chunks
+            while cur:
+                del again[:]
+                results += p.map(cur, on_result=count_hangs,
+                                 should_stop=lambda: (nh[0] + len(p.events) >= 12 or
+                                                      (agg["sig_counts"] and time.time() - t0 > self.failfast_s.get(tier, 900.0))),
+                                 deadline=t0 + self.budget_s.get(tier, 5400.0))
+                if p.deadline_hit:
+                    break
+                cur = list(again)
         finally:
             p.close()
+        self.stopped_early = p.deadline_hit
+        if p.deadline_hit:
+            print("%s: stopped early (%d watchdog hits, %.0fs elapsed); the space was NOT completed" % (
+                self.id, nh[0] + len(p.events), time.time() - t0))
+            if not agg["sig_counts"]:
+                verdict.errors.append("run stopped early without a verdict (time budget or repeated watchdog hits)")
         for r in results:
+            if r is None:
+                continue
             if isinstance(r, tuple) and r and r[0] == "fatal":
                 verdict.errors.append("worker failure: " + str(r[1])[-1500:])
         # hard hangs / crashes detected by the parent
@@ -163,14 +209,15 @@ class InputProp:
                 rec["idx"] = cidx
                 rec["case"] = case
                 agg["viol"].append(rec)
+        # finish() may add cross-case violations to agg["viol"] / agg["sig_counts"]
+        extra, errs = self.finish(agg)
+        verdict.errors.extend(errs)
         by_sig = {}
         for rec in agg["viol"]:
             by_sig.setdefault(rec["sig"], []).append(rec)
         for sig, cnt in agg["sig_counts"].items():
             recs = sorted(by_sig.get(sig, []), key=lambda r: r["idx"])
             verdict.add(sig, recs[0] if recs else None, count=cnt)
-        extra, errs = self.finish(agg)
-        verdict.errors.extend(errs)
         rc = verdict.finish()
         cov = {
             "states": agg["n"],
@@ -181,7 +228,8 @@ class InputProp:
             "distinct_nontrivial_capped": len(agg["keys"]) >= KEYCAP,
             "rule": self.rule,
             "samples": sorted(agg["samples"], key=lambda s: s["idx"])[: self.nsamples] or [{"note": "empty space"}],
-            "exhaustive": n == agg["n"] and not p.events,
+            "exhaustive": n == agg["n"] and not p.events and not self.stopped_early,
+            "stopped_early_after_watchdog_hits": bool(self.stopped_early),
             "space_size": n,
             "counters": dict(agg["counters"]),
             "violation_signatures": {s: c for s, c in agg["sig_counts"].items()},
